@@ -132,7 +132,8 @@ func (enc *xmlWriter) ByteString(tag int, str []byte) {
 }
 
 func (enc *xmlWriter) DateTime(tag int, date time.Time) {
-	enc.encode(TypeDateTime, tag, date.Format(time.RFC3339))
+	// Written in UTC: in a zone ahead of UTC the last hours of year 9999 would carry the year 10000, which no reader accepts.
+	enc.encode(TypeDateTime, tag, date.UTC().Format(time.RFC3339))
 }
 
 func (enc *xmlWriter) Interval(tag int, interval time.Duration) {
